@@ -675,6 +675,19 @@ func c16Check(c *vcore.Ctx) {
 			c.HarnessError("replay: %v", err)
 			return
 		}
+		if cs.Part == "long" {
+			var lc c16LongCase
+			if err := jsonUnmarshal(c.Replay, &lc); err != nil {
+				c.HarnessError("replay: %v", err)
+				return
+			}
+			dir := os.Getenv("VERIF_TMP")
+			if dir == "" {
+				dir = os.TempDir()
+			}
+			c16LongOne(c, &lc, dir)
+			return
+		}
 		if cs.Part == "conc" {
 			if _, _, valid := c16ConcOne(c, &cs, cs.Choices, true); !valid {
 				c.HarnessError("replay: schedule %v asks for a choice that does not exist", cs.Choices)
@@ -703,6 +716,9 @@ func c16Check(c *vcore.Ctx) {
 	c16Seq(c, depth)
 	if !c.Expired() {
 		c16Conc(c)
+	}
+	if !c.Expired() {
+		c16Long(c)
 	}
 }
 
